@@ -129,7 +129,9 @@ fn fnv(d: &Dump) -> u64 {
     match d {
         Err(e) => {
             eat(1);
-            for b in e.bytes() { eat(b as u64) }
+            if abnormal(e) {
+                for b in e.bytes() { eat(b as u64) }
+            }
         }
         Ok(kfs) => {
             eat(2);
@@ -138,7 +140,9 @@ fn fnv(d: &Dump) -> u64 {
                 match k {
                     Kf::Err(e) => {
                         eat(3);
-                        for b in e.bytes() { eat(b as u64) }
+                        if abnormal(e) {
+                            for b in e.bytes() { eat(b as u64) }
+                        }
                     }
                     Kf::Ok(chs) => {
                         eat(4);
@@ -157,10 +161,16 @@ fn fnv(d: &Dump) -> u64 {
     h
 }
 
+fn abnormal(e: &str) -> bool {
+    e.starts_with("hang") || e.starts_with("panic")
+}
+
 /// first difference between two dumps, as words without spaces
 fn first_diff(a: &Dump, b: &Dump) -> Option<String> {
     match (a, b) {
-        (Err(x), Err(y)) => if x == y { None } else { Some(format!("read-error-class:{}/{}", x, y)) },
+        // the error VALUE may differ between schedules (the slot is last-writer-wins:
+        // C07_error_value_depends_on_schedule_witness); hang / panic are outcomes of their own
+        (Err(x), Err(y)) => if x == y || !(abnormal(x) || abnormal(y)) { None } else { Some(format!("read-error-class:{}/{}", x, y)) },
         (Err(x), Ok(_)) => Some(format!("outcome:read-err-{}/ok", x)),
         (Ok(_), Err(y)) => Some(format!("outcome:ok/read-err-{}", y)),
         (Ok(x), Ok(y)) => {
@@ -169,7 +179,7 @@ fn first_diff(a: &Dump, b: &Dump) -> Option<String> {
             }
             for (k, (p, q)) in x.iter().zip(y).enumerate() {
                 match (p, q) {
-                    (Kf::Err(e), Kf::Err(f)) => if e != f { return Some(format!("kf={},error-class:{}/{}", k, e, f)) },
+                    (Kf::Err(e), Kf::Err(f)) => if e != f && (abnormal(e) || abnormal(f)) { return Some(format!("kf={},error-class:{}/{}", k, e, f)) },
                     (Kf::Err(e), Kf::Ok(_)) => return Some(format!("kf={},outcome:err-{}/ok", k, e)),
                     (Kf::Ok(_), Kf::Err(f)) => return Some(format!("kf={},outcome:ok/err-{}", k, f)),
                     (Kf::Ok(c), Kf::Ok(d)) => {
@@ -512,6 +522,46 @@ fn main() {
                 _ => catch(|| cms(&a)),
             };
             match r { Ok(s) => s, Err(p) => p }
+        }
+        // natorder[p] IDX.. : the natural-order tables in the order asked (natorderp: one thread each,
+        // started together), `idx=len:fnv1a64`
+        [op @ ("natorder" | "natorderp"), idxs @ ..] => {
+            let Some(is) = idxs.iter().map(|s| s.parse::<usize>().ok().filter(|i| *i < 13)).collect::<Option<Vec<_>>>() else {
+                return "bad-op".into();
+            };
+            let par = *op == "natorderp";
+            let word = |i: usize| {
+                let t = jxl_vardct::verif_natural_order(i);
+                let mut h: u64 = 0xcbf29ce484222325;
+                for (x, y) in t {
+                    for b in [x.to_le_bytes(), y.to_le_bytes()].concat() {
+                        h ^= b as u64;
+                        h = h.wrapping_mul(0x100000001b3);
+                    }
+                }
+                format!("{}={}:{}", i, t.len(), h)
+            };
+            match catch(move || {
+                if par {
+                    let barrier = std::sync::Arc::new(std::sync::Barrier::new(is.len().max(1)));
+                    let hs: Vec<_> = is
+                        .iter()
+                        .map(|&i| {
+                            let b = barrier.clone();
+                            std::thread::spawn(move || {
+                                b.wait();
+                                word(i)
+                            })
+                        })
+                        .collect();
+                    hs.into_iter().map(|h| h.join().unwrap_or_else(|_| "panic".into())).collect::<Vec<_>>()
+                } else {
+                    is.iter().map(|&i| word(i)).collect::<Vec<_>>()
+                }
+            }) {
+                Ok(v) => format!("ok {}", v.join(" ")),
+                Err(p) => p,
+            }
         }
         ["groups", w, h, gw, gh] => {
             let p = |s: &str| s.parse::<usize>().ok();
